@@ -2,6 +2,7 @@ import Pyunicorn.Lemmas.Similarity
 import Pyunicorn.Lemmas.SimilarityIeee
 import Pyunicorn.Lemmas.SimilarityWeight
 import Pyunicorn.Lemmas.SimilarityHilbert
+import Pyunicorn.Lemmas.SimilarityRounding
 import Pyunicorn.Generated.ArithC09
 import Pyunicorn.Model.SimilarityScript
 /-!
@@ -814,6 +815,313 @@ example : ((mkHilbert 2 true (fun i j => if i = j then 1 else 3/4)
         (fun i j => if i < j then 1/2 else if j < i then -1/2 else 0)]).map
       (fun h => (h.net.directed, h.net.A, h.net.nLinks, h.net.density))
     = some (false, [false, true, true, false], 1, some 1) := by decide +kernel
+
+/-! ## 9. as executed: NaN similarities and float32 rounding (round 4)
+
+`Model/SimilarityNumeric.lean`: entries `Option Rat` (`none` = NaN), the rounding `fl` of the
+arrays' arithmetic as a parameter (`rn24` = IEEE binary32 in the driver).  The exact model of
+sections 1–5 is the special case "no NaN, `fl = id`" (`x_refines`). -/
+
+/-- **link rule with NaNs**: linked ⇔ distinct, both the (weighted) similarity and the threshold
+are numbers, and the similarity exceeds the threshold -/
+theorem x_link_iff (W : XSim) (θ : Option Rat) (N i j : Nat) (hi : i < N) (hj : j < N) :
+    (thresholdAdjacencyX W θ N)[i * N + j]? = some true ↔
+      i ≠ j ∧ ∃ s t, W i j = some s ∧ θ = some t ∧ t < s := by
+  rw [getElem?_thresholdAdjacencyX W θ N i j hi hj]
+  cases hW : W i j with
+  | none => simp [gtX]
+  | some s =>
+    cases θ with
+    | none => simp [gtX]
+    | some t => simp [gtX]
+
+theorem x_adjacency_length (W : XSim) (θ : Option Rat) (N : Nat) :
+    (thresholdAdjacencyX W θ N).length = N * N := length_thresholdAdjacencyX W θ N
+
+/-- a pair whose similarity is NaN is never linked, whatever the threshold and the weight -/
+theorem x_nan_never_linked (fl : Rat → Rat) (nl : Bool) (S : XSim) (damp : Sim) (θ : Option Rat)
+    (N i j : Nat) (hi : i < N) (hj : j < N) (h : S i j = none) :
+    (thresholdAdjacencyX (weightedX fl nl S damp) θ N)[i * N + j]? = some false := by
+  rw [getElem?_thresholdAdjacencyX _ θ N i j hi hj]
+  simp [weightedX, h, gtX]
+
+/-- a NaN threshold (selected by the quantile rule when NaNs reach the index) gives the empty network -/
+theorem x_nan_threshold_empty (W : XSim) (N : Nat) : nnz (thresholdAdjacencyX W none N) = 0 := by
+  rw [nnz_thresholdAdjacencyX, List.countP_eq_zero]
+  intro x _; simp [gtX_none]
+
+/-- **link rule at the object, as executed**: `|fl s₀|` is the stored float32 similarity, the
+product with the weight and the threshold are rounded by the arrays' arithmetic -/
+theorem x_link_iff_object (fl : Rat → Rat) (N : Nat) (directed : Bool) (S0 : XSim) (damp : Sim)
+    (nl : Bool) (θ : Option Rat) (i j : Nat) (hi : i < N) (hj : j < N) :
+    (mkThresholdX fl N directed S0 damp nl θ).A[i * N + j]? = some true ↔
+      i ≠ j ∧ ∃ s0 t, S0 i j = some s0 ∧ θ = some t ∧
+        fl t < (if nl then fl (ratAbs (fl s0) * damp i j) else ratAbs (fl s0)) := by
+  simp only [mkThresholdX, XNet.setThreshold, xblank]
+  rw [x_link_iff _ _ _ _ _ hi hj]
+  cases hS : S0 i j with
+  | none => simp [weightedX, absX, hS]
+  | some s0 =>
+    cases θ with
+    | none => simp
+    | some t => cases nl <;> simp [weightedX, absX, hS]
+
+/-- **no spurious link from rounding the threshold**: for a monotone rounding that leaves the stored
+similarity `s` unchanged, a reported link means `s` exceeds the *unrounded* threshold -/
+theorem float_links_sound (fl : Rat → Rat) (hmono : ∀ x y, x ≤ y → fl x ≤ fl y) (W : XSim) (t : Rat)
+    (N i j : Nat) (hi : i < N) (hj : j < N) (s : Rat) (hW : W i j = some s) (hrep : fl s = s)
+    (h : (thresholdAdjacencyX W ((some t).map fl) N)[i * N + j]? = some true) : i ≠ j ∧ t < s := by
+  rw [x_link_iff _ _ _ _ _ hi hj] at h
+  obtain ⟨hij, s', t', h1, h2, h3⟩ := h
+  rw [hW] at h1
+  simp only [Option.map_some, Option.some.injEq] at h1 h2
+  subst h1 h2
+  refine ⟨hij, ?_⟩
+  by_contra hn
+  have := hmono _ _ (not_lt.1 hn)
+  rw [hrep] at this
+  exact absurd h3 (not_lt.2 this)
+
+/-- **the only links lost to the rounding**: a pair above the threshold is unlinked only when the
+threshold rounds *onto* its similarity (`θ` within half an ulp below `s`) -/
+theorem float_links_complete (fl : Rat → Rat) (hmono : ∀ x y, x ≤ y → fl x ≤ fl y) (W : XSim)
+    (t : Rat) (N i j : Nat) (hi : i < N) (hj : j < N) (hij : i ≠ j) (s : Rat) (hW : W i j = some s)
+    (hrep : fl s = s) (hts : t < s)
+    (h : (thresholdAdjacencyX W ((some t).map fl) N)[i * N + j]? ≠ some true) : fl t = s := by
+  rw [Ne, x_link_iff _ _ _ _ _ hi hj] at h
+  have h1 : fl t ≤ s := by
+    have := hmono _ _ (le_of_lt hts); rwa [hrep] at this
+  rcases lt_or_eq_of_le h1 with h2 | h2
+  · exact absurd ⟨hij, s, fl t, hW, rfl, h2⟩ h
+  · exact h2
+
+/-- a representable threshold is compared exactly -/
+theorem float_threshold_exact (fl : Rat → Rat) (W : XSim) (t : Rat) (N : Nat) (ht : fl t = t) :
+    thresholdAdjacencyX W ((some t).map fl) N = thresholdAdjacencyX W (some t) N := by
+  simp [ht]
+
+/-- **raising the threshold only removes links, as executed** (NaNs, rounded thresholds) -/
+theorem x_antitone_in_threshold (fl : Rat → Rat) (hmono : ∀ x y, x ≤ y → fl x ≤ fl y) (W : XSim)
+    (t t' : Rat) (N i j : Nat) (hi : i < N) (hj : j < N) (h : t ≤ t')
+    (hl : (thresholdAdjacencyX W ((some t').map fl) N)[i * N + j]? = some true) :
+    (thresholdAdjacencyX W ((some t).map fl) N)[i * N + j]? = some true := by
+  rw [x_link_iff _ _ _ _ _ hi hj] at hl ⊢
+  obtain ⟨hij, s, t1, h1, h2, h3⟩ := hl
+  simp only [Option.map_some, Option.some.injEq] at h2
+  subst h2
+  exact ⟨hij, s, fl t, h1, rfl, lt_of_le_of_lt (hmono _ _ h) h3⟩
+
+/-- a symmetric similarity (NaNs in symmetric positions) gives a symmetric adjacency -/
+theorem x_symmetric_of_symmetric (W : XSim) (θ : Option Rat) (N i j : Nat) (hi : i < N) (hj : j < N)
+    (hsym : W i j = W j i) :
+    (thresholdAdjacencyX W θ N)[i * N + j]? = (thresholdAdjacencyX W θ N)[j * N + i]? := by
+  rw [getElem?_thresholdAdjacencyX W θ N i j hi hj, getElem?_thresholdAdjacencyX W θ N j i hj hi,
+    hsym]
+  have : (i ≠ j) = (j ≠ i) := propext ⟨Ne.symm, Ne.symm⟩
+  simp only [this]
+
+/-- **suppression of local links only removes links, as executed in floating point** -/
+theorem x_nnz_non_local_le (fl : Rat → Rat) (hmono : ∀ x y, x ≤ y → fl x ≤ fl y) (S : XSim)
+    (damp : Sim) (θ : Option Rat) (N : Nat)
+    (hrep : ∀ i j s, i < N → j < N → S i j = some s → fl s = s ∧ 0 ≤ s)
+    (hd : ∀ i j, i < N → j < N → damp i j ≤ 1) :
+    nnz (thresholdAdjacencyX (weightedX fl true S damp) θ N)
+      ≤ nnz (thresholdAdjacencyX (weightedX fl false S damp) θ N) :=
+  nnzX_non_local_le fl hmono S damp θ N hrep hd
+
+/-- **the realised density never exceeds the request, as executed**: NaN pairs (sorted last, never
+linked), the float product `fl (s·w)`, the threshold compared after rounding — for every monotone
+rounding that leaves the stored similarities unchanged; no margin is needed -/
+theorem x_density_le_request (fl : Rat → Rat) (hmono : ∀ x y, x ≤ y → fl x ≤ fl y) (S : XSim)
+    (damp : Sim) (nl : Bool) (N k : Nat) (ρ ε : Rat) (θ : Option Rat)
+    (hrep : ∀ i j s, i < N → j < N → S i j = some s → fl s = s ∧ 0 ≤ s)
+    (hd : ∀ i j, i < N → j < N → damp i j ≤ 1)
+    (hρ : 0 ≤ ρ) (hε : 0 ≤ ε)
+    (hk : (1 - ρ) * ((offDiagX S N).length : Rat) - 1 - ε ≤ (k : Rat))
+    (h : thresholdFromIndexX S N k = some θ) :
+    (nnz (thresholdAdjacencyX (weightedX fl nl S damp) (θ.map fl) N) : Rat)
+      ≤ ρ * ((offDiagX S N).length : Rat) + ε :=
+  densityX_le_request fl hmono S damp nl N k ρ ε θ hrep hd hρ hε hk h
+
+/-- **with NaNs the request is missed by at most the tied pairs plus the NaN pairs** (non_local off) -/
+theorem x_density_gap (fl : Rat → Rat) (S : XSim) (damp : Sim) (N k : Nat) (ρ ε : Rat)
+    (θ : Option Rat)
+    (hrep : ∀ i j s, i < N → j < N → S i j = some s → fl s = s ∧ 0 ≤ s)
+    (hk : (k : Rat) ≤ (1 - ρ) * ((offDiagX S N).length : Rat) + ε)
+    (h : thresholdFromIndexX S N k = some θ) :
+    ρ * ((offDiagX S N).length : Rat) - ε
+      ≤ (nnz (thresholdAdjacencyX (weightedX fl false S damp) (θ.map fl) N) : Rat)
+        + (tiesX (offDiagX S N) θ : Rat) + ((offDiagX S N).countP Option.isNone : Rat) :=
+  densityX_gap fl S damp N k ρ ε θ hrep hk h
+
+/-- **`set_link_density(ρ)` as executed, with NaNs and float32 arithmetic** (IEEE index):
+`nnz ≤ (ρ + 2⁻⁵² + 2⁻¹⁰⁶)·(N² − N)` -/
+theorem x_set_link_density_ieee (fl : Rat → Rat) (hmono : ∀ x y, x ≤ y → fl x ≤ fl y)
+    (s s' : XNet) (ρ : Rat)
+    (hrep : ∀ i j v, i < s.N → j < s.N → s.S i j = some v → fl v = v ∧ 0 ≤ v)
+    (hd : ∀ i j, i < s.N → j < s.N → s.damp i j ≤ 1) (h0 : 0 ≤ ρ) (h1 : ρ ≤ 1)
+    (h : s.setLinkDensity fl (ieeeIndex ρ (offDiagX s.S s.N).length) = some s') :
+    (nnz s'.A : Rat) ≤ (ρ + ieeeSlack) * ((offDiagX s.S s.N).length : Rat) := by
+  simp only [XNet.setLinkDensity, Option.map_eq_some_iff] at h
+  obtain ⟨θ, hθ, rfl⟩ := h
+  obtain ⟨b1, _⟩ := ieeeIndex_bounds ρ (offDiagX s.S s.N).length h0 h1
+  have hslack : (0 : Rat) ≤ ieeeSlack := by unfold ieeeSlack; positivity
+  have hlen : (0 : Rat) ≤ ((offDiagX s.S s.N).length : Rat) := by exact_mod_cast Nat.zero_le _
+  have hε : (0 : Rat) ≤ ((offDiagX s.S s.N).length : Rat) * ieeeSlack := mul_nonneg hlen hslack
+  have := x_density_le_request fl hmono s.S s.damp s.nonLocal s.N _ ρ _ θ hrep hd h0 hε b1 hθ
+  simp only [XNet.setThreshold]
+  linarith
+
+/-- the quantile rule selects a stored similarity or NaN; the call raises exactly for `N ≤ 1` -/
+theorem x_threshold_mem (S : XSim) (N k : Nat) (t : Rat)
+    (h : thresholdFromIndexX S N k = some (some t)) : some t ∈ offDiagX S N :=
+  quantileX_mem _ k t h
+
+/-- **order statistic with NaNs**: at most `len − 1 − m` pairs exceed the selected value and at
+least `len − m` exceed it, tie with it or are NaN (`m` the clamped index) -/
+theorem x_threshold_is_order_statistic (S : XSim) (N k : Nat) (θ : Option Rat)
+    (h : thresholdFromIndexX S N k = some θ) :
+    (offDiagX S N).countP (fun x => gtX x θ) + min k ((offDiagX S N).length - 1) + 1
+        ≤ (offDiagX S N).length ∧
+      (offDiagX S N).length ≤ (offDiagX S N).countP (fun x => gtX x θ) + tiesX (offDiagX S N) θ
+        + (offDiagX S N).countP Option.isNone + min k ((offDiagX S N).length - 1) :=
+  ⟨quantileX_upper _ k θ h, quantileX_lower _ k θ h⟩
+
+/-- binary32 rounding: relative error `2⁻²⁴`, absolute error `2⁻¹⁵⁰` (gradual underflow) -/
+theorem rn24_error (x : Rat) : |rn24 x - x| ≤ (1 / 2 ^ 24) * |x| + 1 / 2 ^ 150 := rn24_err x
+
+/-- **proved margin for the float comparison**: for every rounding with relative error `u` and
+absolute error `η`, `fl θ < fl p` decides as `θ < p` once `|p − θ| > u (|p| + |θ|) + 2η` -/
+theorem float_decision_exact_of_margin (fl : Rat → Rat) (u η : Rat) (h : RoundsWithin fl u η)
+    (p θ : Rat) (hm : u * (|p| + |θ|) + 2 * η < |p - θ|) : fl θ < fl p ↔ θ < p :=
+  decision_exact_of_margin fl u η h p θ hm
+
+/-- a relative distance of `4u` from the threshold (plus `4η`) is such a margin: for binary32 a
+relative gap of `2⁻²²` ≈ 2.4e-7 — the harness's former near-tie exclusion (1e-6) was sufficient -/
+theorem float_margin_of_relative_gap (u η p θ : Rat) (hu0 : 0 ≤ u) (hu : u ≤ 1 / 4) (hη : 0 ≤ η)
+    (hg : 4 * u * |θ| + 4 * η < |p - θ|) : u * (|p| + |θ|) + 2 * η < |p - θ| :=
+  margin_of_relative_gap u η p θ hu0 hu hη hg
+
+/-- the float32 decision on the damped similarity equals the exact one outside the `2⁻²²` band -/
+theorem rn24_decision_exact (p θ : Rat)
+    (hg : 4 * (1 / 2 ^ 24) * |θ| + 4 * (1 / 2 ^ 150) < |p - θ|) : rn24 θ < rn24 p ↔ θ < p :=
+  decision_exact_of_margin rn24 _ _ rn24_roundsWithin p θ
+    (margin_of_relative_gap _ _ p θ (by positivity) (by norm_num) (by positivity) hg)
+
+/-! ### consistency after every history, as executed -/
+
+def XNet.Consistent (fl : Rat → Rat) (s : XNet) : Prop :=
+  s.A = thresholdAdjacencyX (weightedX fl s.nonLocal s.S s.damp) (s.θ.map fl) s.N ∧
+  s.nLinks = countLinks s.directed s.A ∧
+  s.density = linkDensity s.A s.N
+
+def XNet.SameData (s t : XNet) : Prop :=
+  t.N = s.N ∧ t.directed = s.directed ∧ t.damp = s.damp
+
+def curSimX (fl : Rat → Rat) (S : XSim) : List XOp → XSim
+  | [] => S
+  | .resim S1 :: os => curSimX fl (absX fl S1) os
+  | _ :: os => curSimX fl S os
+
+theorem x_setThreshold_consistent (fl : Rat → Rat) (s : XNet) (θ : Option Rat) :
+    (s.setThreshold fl θ).Consistent fl ∧ s.SameData (s.setThreshold fl θ) ∧
+      (s.setThreshold fl θ).S = s.S := by
+  simp [XNet.setThreshold, XNet.Consistent, XNet.SameData]
+
+theorem x_step_consistent (fl : Rat → Rat) (s s' : XNet) (o : XOp) (hc : s.Consistent fl)
+    (h : s.step fl o = some s') :
+    s'.Consistent fl ∧ s.SameData s' ∧ s'.S = curSimX fl s.S [o] := by
+  cases o with
+  | thr θ =>
+    simp only [XNet.step, Option.some.injEq] at h
+    subst h
+    exact x_setThreshold_consistent fl s θ
+  | dens k =>
+    simp only [XNet.step, XNet.setLinkDensity, Option.map_eq_some_iff] at h
+    obtain ⟨θ, _, rfl⟩ := h
+    exact x_setThreshold_consistent fl s θ
+  | nl b =>
+    simp only [XNet.step, XNet.setNonLocal, Option.some.injEq] at h
+    by_cases hb : (s.nonLocal != b) = true
+    · rw [if_pos hb] at h
+      subst h
+      exact x_setThreshold_consistent fl { s with nonLocal := b } s.θ
+    · rw [if_neg hb] at h
+      subst h
+      exact ⟨hc, ⟨rfl, rfl, rfl⟩, rfl⟩
+  | resim S1 =>
+    simp only [XNet.step, Option.some.injEq] at h
+    subst h
+    exact x_setThreshold_consistent fl { s with S := absX fl S1 } s.θ
+
+theorem curSimX_cons (fl : Rat → Rat) (S : XSim) (o : XOp) (os : List XOp) :
+    curSimX fl S (o :: os) = curSimX fl (curSimX fl S [o]) os := by
+  cases o <;> simp [curSimX]
+
+/-- **consistency after every history, as executed**: NaN similarities, NaN thresholds, float32
+arithmetic — adjacency, link count and density are those of the reported threshold / `non_local`
+and of the current similarity -/
+theorem x_consistent_after_history (fl : Rat → Rat) (ops : List XOp) (s s' : XNet)
+    (hc : s.Consistent fl) (h : s.run fl ops = some s') :
+    s'.Consistent fl ∧ s.SameData s' ∧ s'.S = curSimX fl s.S ops := by
+  induction ops generalizing s with
+  | nil =>
+    simp only [XNet.run, Option.some.injEq] at h
+    subst h
+    exact ⟨hc, ⟨rfl, rfl, rfl⟩, rfl⟩
+  | cons o os ih =>
+    simp only [XNet.run, Option.bind_eq_some_iff] at h
+    obtain ⟨s1, h1, h2⟩ := h
+    have c1 := x_step_consistent fl s s1 o hc h1
+    have c2 := ih s1 c1.1 h2
+    refine ⟨c2.1, ?_, ?_⟩
+    · obtain ⟨a1, a2, a3⟩ := c1.2.1
+      obtain ⟨b1, b2, b3⟩ := c2.2.1
+      exact ⟨b1.trans a1, b2.trans a2, b3.trans a3⟩
+    · rw [c2.2.2, c1.2.2, ← curSimX_cons]
+
+theorem curSimX_absX (fl : Rat → Rat) (S0 : XSim) (ops : List XOp) :
+    curSimX fl (absX fl S0) ops = absX fl (lastSimX S0 ops) := by
+  induction ops generalizing S0 with
+  | nil => rfl
+  | cons o os ih => cases o <;> simp [curSimX, lastSimX, ih]
+
+/-- **fresh twin, as executed**: after any history the object equals the fresh
+`ClimateNetwork(grid, S, threshold=threshold(), non_local=non_local())` built from the similarity
+last handed over — also with NaN entries and a NaN threshold -/
+theorem x_history_eq_fresh (fl : Rat → Rat) (N : Nat) (directed : Bool) (S0 : XSim) (damp : Sim)
+    (nl : Bool) (θ : Option Rat) (ops : List XOp) (s' : XNet)
+    (h : (mkThresholdX fl N directed S0 damp nl θ).run fl ops = some s') :
+    s' = mkThresholdX fl N directed (lastSimX S0 ops) damp s'.nonLocal s'.θ := by
+  have hc : (mkThresholdX fl N directed S0 damp nl θ).Consistent fl :=
+    (x_setThreshold_consistent fl _ θ).1
+  obtain ⟨⟨c1, c2, c3⟩, ⟨d1, d2, d3⟩, d4⟩ := x_consistent_after_history fl ops _ s' hc h
+  have hS : s'.S = absX fl (lastSimX S0 ops) := by
+    rw [d4, ← curSimX_absX]; rfl
+  cases s'
+  simp only [mkThresholdX, XNet.setThreshold, xblank] at *
+  subst d1 d2 d3 hS
+  simp [c1, c2, c3]
+
+/-- **the exact model is the special case** "no NaN, no rounding": running a history on the
+embedded object is embedding the result of the exact model -/
+theorem x_refines (ops : List Op) (s : Net) :
+    (embed s).run id (ops.map embedOp) = (s.run ops).map embed := embed_run' ops s
+
+/-- NaN pair in a 3-node network, request ρ = 1/2 (index 3 of 6): the NaNs sort last, the selected
+value 1/2 leaves 1 ordered pair linked (≤ 3), 2 tied, 2 NaN -/
+example : let S : XSim := fun i j => if i + j = 1 then none else some (((i + j : Nat) : Rat) / 4)
+    thresholdFromIndexX S 3 3 = some (some (3/4)) ∧ thresholdFromIndexX S 3 5 = some none ∧
+      thresholdFromIndexX S 3 1 = some (some (1/2)) ∧
+      nnz (thresholdAdjacencyX S (some (1/2)) 3) = 2 ∧
+      (offDiagX S 3).countP Option.isNone = 2 ∧ tiesX (offDiagX S 3) (some (1/2)) = 2 := by
+  decide +kernel
+
+/-- float32: the threshold 1 − 2⁻³⁰ rounds onto the similarity 1 — the pair is above the threshold
+but unlinked (`float_links_complete`); 1 − 2⁻²⁰ does not -/
+example : rn24 (1 - 1 / 2 ^ 30) = 1 ∧ rn24 (1 - 1 / 2 ^ 20) = 1 - 1 / 2 ^ 20 ∧
+    rn24 (1 / 3) = 11184811 / 33554432 ∧ rn24 (-(1 / 3)) = -(11184811 / 33554432) ∧
+    rn24 (3 / 2 ^ 150) = 4 / 2 ^ 150 := by decide +kernel
 
 section Scripts
 open Script
